@@ -916,5 +916,5 @@ def _programs(draw):
 
 def subs(tier):
     return [
-        Generated("programs", check_prog, strategy=_programs(), quick=1500, thorough=80000),
+        Generated("programs", check_prog, strategy=_programs(), quick=8000, thorough=80000),
     ]
